@@ -73,6 +73,7 @@ def make_man_class():
                              "task": task.get_name() if task else "?", "ix": len(self.pre), "delivered_state": None,
                              "delivered_at_ix": None, "parent": None})
             completed = False
+            transport = getattr(self._spa, "_transport", None)   # the endpoint of the connection this reset abandons
             try:
                 await super().async_reset()
                 completed = True
@@ -83,7 +84,7 @@ def make_man_class():
                 self.resets.append({"t0": t0, "t1": self.world.clock.t, "state": self._spa_state,
                                     "facade": self._facade is not None, "spa": self._spa is not None,
                                     "descriptors": self._spa_descriptors is not None, "completed": completed,
-                                    "task": task.get_name() if task else "?"})
+                                    "task": task.get_name() if task else "?", "transport": transport})
 
     return RecMan
 
